@@ -8,6 +8,8 @@ from .adapters import diff_variants_in
 from . import wakers
 from .c01 import CALL_CLOSURE
 
+CRATES = (UT,)
+
 META = {
     "explanation": (
         "Static decision on MIR of the sort translator (its sorted buffer IS the view, tagged with source indices): R11.1 exhaustive dispatch over the 11 "
